@@ -9,13 +9,23 @@ val snd : ('a1 * 'a2) -> 'a2
 
 val length : 'a1 list -> nat
 
+val app : 'a1 list -> 'a1 list -> 'a1 list
+
 val add : nat -> nat -> nat
+
+val mul : nat -> nat -> nat
 
 module Nat :
  sig
+  val eqb : nat -> nat -> bool
+
   val leb : nat -> nat -> bool
 
   val ltb : nat -> nat -> bool
+
+  val divmod : nat -> nat -> nat -> nat -> nat * nat
+
+  val div : nat -> nat -> nat
  end
 
 val map : ('a1 -> 'a2) -> 'a1 list -> 'a2 list
@@ -51,3 +61,39 @@ val arun : astate -> aop list -> (astate * ares) list
 val enc_ares : ares -> nat
 
 val run_alloc : nat -> aop list -> nat list list
+
+val secondary_capacity : nat -> nat -> nat -> nat option
+
+type skind =
+| SInactive
+| SActive
+| SErrored
+
+type sreq = { r_kind : skind; r_count : nat; r_tag : nat }
+
+type span = (nat * nat) option
+
+val pre_step_thread : nat -> skind -> astate -> span -> astate * span
+
+val pre_step_all :
+  nat -> astate -> skind list -> span list -> astate * span list
+
+val interact_slot : astate -> span -> sreq -> (astate * span) * bool
+
+val interact_all :
+  astate -> span list -> sreq list -> (astate * span list) * bool list
+
+val step_stack :
+  astate -> span list -> sreq list -> (astate * span list) * bool list
+
+val steps_stack :
+  astate -> span list -> sreq list list -> ((astate * span list) * bool list)
+  list
+
+val enc_span : span -> nat list
+
+val b2n : bool -> nat
+
+val enc_slots : span list -> bool list -> nat list
+
+val run_steps : nat -> nat -> nat -> sreq list list -> nat list list
